@@ -11,6 +11,7 @@
 //!   `d:<n>`  `e:<n>`                  delete / exists
 //!   `ki:<dg>:<n>` `kg:<dg>` `kd:<dg>` key-id store: insert_key_id / get_key_id / delete_key_id for method digest dg
 //!   `kr:<dg>:<t>`                     t threads insert key ids 201.. for one digest at the same time
+//!   `dr:<n>:<t>`                      t threads delete the n-th key id at the same time
 //! Key ids are printed as the number of the order they were handed out in; key pairs as the key id that generated them
 //! (101 / 102 for the two fixed pairs).
 //! Implementation-side oracles: the JWK returned by generate has no private member, kid = its RFC 7638 thumbprint
@@ -254,6 +255,29 @@ pub fn run(args: &[&str]) -> String {
           Err(e) => format!("err:{}", kerr(e.kind(), &e.to_string())),
         })
       })(),
+      ["dr", n, threads] => (|| {
+        // t threads delete one key id at the same moment: a stored key is deleted by exactly one of them
+        let n: usize = n.parse().ok()?;
+        let t: usize = threads.parse().ok()?;
+        let id = issued.get(n.wrapping_sub(1)).map(|x| x.0.clone()).unwrap_or_else(|| unknown.clone());
+        let barrier = std::sync::Barrier::new(t);
+        let store_ref = &store;
+        let oks: usize = std::thread::scope(|sc| {
+          let hs: Vec<_> = (0..t)
+            .map(|_| {
+              let id = id.clone();
+              let barrier = &barrier;
+              sc.spawn(move || {
+                let rt = tokio::runtime::Builder::new_current_thread().build().unwrap();
+                barrier.wait();
+                rt.block_on(store_ref.delete(&id)).is_ok()
+              })
+            })
+            .collect();
+          hs.into_iter().map(|h| h.join().unwrap_or(false) as usize).sum()
+        });
+        Some(format!("ok={};fail={}", oks, t - oks))
+      })(),
       ["e", n] => (|| {
         let n: usize = n.parse().ok()?;
         let id = issued.get(n.wrapping_sub(1)).map(|x| x.0.clone()).unwrap_or_else(|| unknown.clone());
@@ -354,6 +378,12 @@ pub fn gen(thorough: bool, seed: u64, out: &mut impl Write) {
   writeln!(out, "C15 hist kg:1 ki:1:5 kg:1 ki:1:6 kg:1 ki:2:6 kg:2 kd:1 kg:1 kd:1 ki:1:7 kg:1 kg:2").unwrap();
   for t in 2..=16 {
     writeln!(out, "C15 hist kr:1:{} kg:2 ki:1:9 kr:1:{} kd:1 kr:1:{} ", t, t, t).unwrap();
+  }
+  // (b') key store: races of 2..12 threads deleting one key id (stored, already deleted, never handed out), repeated: a key
+  // is deleted exactly once
+  for rep in 0..(if thorough { 40 } else { 8 }) {
+    let t = 2 + (rep % 11);
+    writeln!(out, "C15 hist g:ed:EdDSA g:ed:EdDSA g:ed:EdDSA dr:1:{} e:1 dr:1:{} dr:2:8 dr:99:{} e:2 e:3 dr:3:12 dr:3:2 s:3:1:ed:EdDSA", t, t, t).unwrap();
   }
   // (c) random histories
   let nh = if thorough { 20000 } else { 1500 };
